@@ -7,6 +7,7 @@ Local Open Scope R_scope.
 (* NumOps projections at ROps, and the derived constants *)
 Ltac rops := cbn [T add sub mul div opp ofZ leb ltb eqb floorZ sqrtT ROps fst snd] in *.
 Ltac rsimp := unfold two, half, one, zero, sq in *; rops.
+Ltac tup := repeat match goal with |- (_, _) = (_, _) => apply f_equal2 end.
 
 (* ------------------------------------------------------------------ truncation *)
 Lemma trunc_unique (p : R) (i : Z) : (0 <= i)%Z -> IZR i <= p < IZR i + 1 -> @trunc ROps p = i.
@@ -213,4 +214,236 @@ Proof.
   induction g as [|c g IH]; intros Hf; [reflexivity|]. cbn [map] in *. inversion Hf as [|? ? [H1 H2] Hf']; subst.
   rewrite IH by assumption. cbn [fst snd] in H1, H2. rops.
   rewrite !trunc_R_nonneg by assumption. reflexivity.
+Qed.
+
+(* ------------------------------------------------------------------ extent *)
+Lemma extent2_eq H W sy sx oy ox :
+  @Geometry2D_extent ROps (H, W) (sy, sx) (oy, ox) = @extent_spec ROps (H, W) (sy, sx) (oy, ox).
+Proof.
+  unfold Geometry2D_extent, Geometry2D_scaled_minima, Geometry2D_scaled_maxima, Geometry2D_shape_native_scaled,
+    extent_spec, lo_spec, hi_spec. rsimp. tup; field.
+Qed.
+Lemma extent1_eq n s o : @Geometry1D_extent ROps n s o = @extent1_spec ROps n s o.
+Proof.
+  unfold Geometry1D_extent, Geometry1D_scaled_minima, Geometry1D_scaled_maxima, Geometry1D_shape_slim_scaled,
+    extent1_spec, lo_spec, hi_spec. rsimp. tup; field.
+Qed.
+
+(* one axis: [o - n s/2, o + n s/2] is the union of the n closed pixel intervals *)
+Lemma axis_cover n s o v : (1 <= n)%Z -> 0 < s ->
+  (@lo_spec ROps n s o <= v <= @hi_spec ROps n s o) <->
+  exists j, (0 <= j < n)%Z /\ @in_interval ROps (@cx_spec ROps n s o (IZR j)) s v = true.
+Proof.
+  intros Hn Hs. unfold lo_spec, hi_spec, in_interval, cx_spec. rsimp. rewrite minus_IZR.
+  assert (Hn' : 1 <= IZR n) by (apply IZR_le in Hn; exact Hn).
+  split.
+  - intros [H1 H2].
+    set (t := (v - o) / s + IZR n / 2).
+    assert (Ev : v = o + (t - IZR n / 2) * s) by (unfold t; field; lra).
+    assert (Ht : 0 <= t <= IZR n).
+    { assert (B : - (IZR n / 2) <= (v - o) / s < IZR n / 2 + 1) by (apply div_bounds; [assumption | nra]).
+      assert (B2 : - (IZR n / 2) - 1 < (v - o) / s <= IZR n / 2) by (apply div_bounds'; [assumption | nra]).
+      unfold t. lra. }
+    pose proof (Rfloor_spec t) as [F1 F2]. set (k := Rfloor t) in *.
+    assert (Hk0 : (0 <= k)%Z).
+    { assert (A : IZR (-1) < IZR k) by (cbn; lra). apply lt_IZR in A. lia. }
+    destruct (Z_lt_le_dec k n) as [Hlt|Hge].
+    + exists k. split; [lia|]. apply andb_true_iff. split; apply Rleb_true; rewrite Ev; nra.
+    + exists (n - 1)%Z. split; [lia|]. apply IZR_le in Hge. rewrite minus_IZR.
+      apply andb_true_iff. split; apply Rleb_true; rewrite Ev; nra.
+  - intros [j [[Hj0 Hj1] Hin]]. apply andb_true_iff in Hin. destruct Hin as [A B]. apply Rleb_true in A, B.
+    apply IZR_le in Hj0. assert (Hj1' : IZR j <= IZR n - 1) by (rewrite <- minus_IZR; apply IZR_le; lia).
+    split; nra.
+Qed.
+(* the y axis runs downward in the row index: row i is column H-1-i of the mirrored axis *)
+Lemma cy_as_cx H sy oy i : @cy_spec ROps H sy oy (IZR i) = @cx_spec ROps H sy oy (IZR (H - 1 - i)).
+Proof. unfold cy_spec, cx_spec. rsimp. rewrite !minus_IZR. field. Qed.
+
+Lemma extent_is_union_of_squares H W sy sx oy ox y x : (1 <= H)%Z -> (1 <= W)%Z -> 0 < sy -> 0 < sx ->
+  let '(xmin, xmax, ymin, ymax) := @Geometry2D_extent ROps (H, W) (sy, sx) (oy, ox) in
+  (xmin <= x <= xmax /\ ymin <= y <= ymax) <->
+  exists i j, (0 <= i < H)%Z /\ (0 <= j < W)%Z /\ @in_square ROps (H, W) (sy, sx) (oy, ox) (i, j) (y, x) = true.
+Proof.
+  intros HH HW Hsy Hsx. rewrite extent2_eq. unfold extent_spec. cbn [fst snd].
+  rewrite (axis_cover W sx ox x HW Hsx), (axis_cover H sy oy y HH Hsy). unfold in_square, centre_spec. cbn [fst snd]. rops.
+  split.
+  - intros [[j [Hj Bx]] [i' [Hi By]]]. exists (H - 1 - i')%Z, j. split; [lia|]. split; [assumption|].
+    rewrite cy_as_cx. replace (H - 1 - (H - 1 - i'))%Z with i' by lia. now rewrite By, Bx.
+  - intros [i [j [Hi [Hj B]]]]. apply andb_true_iff in B. destruct B as [By Bx]. split.
+    + exists j. now split.
+    + exists (H - 1 - i)%Z. split; [lia|]. now rewrite <- cy_as_cx.
+Qed.
+Lemma extent1_is_union_of_intervals n s o x : (1 <= n)%Z -> 0 < s ->
+  let '(xmin, xmax) := @Geometry1D_extent ROps n s o in
+  (xmin <= x <= xmax) <-> exists j, (0 <= j < n)%Z /\ @in_interval ROps (@centre1_spec ROps n s o j) s x = true.
+Proof. intros Hn Hs. rewrite extent1_eq. unfold extent1_spec, centre1_spec. rops. now apply axis_cover. Qed.
+
+(* ------------------------------------------------------------------ radial predicates *)
+Lemma bool_eq_iff (a b : bool) : (a = true <-> b = true) -> a = b.
+Proof. destruct a, b; intros [H1 H2]; auto; try (symmetry; auto). Qed.
+
+Lemma sqrt_leb_sq a r : 0 <= a -> Rleb (sqrt a) r = @sqrt_le ROps a r.
+Proof.
+  intros Ha. unfold sqrt_le. rsimp. apply bool_eq_iff. rewrite andb_true_iff, !Rleb_true. split.
+  - intros Hs. pose proof (sqrt_pos a) as Hp. split; [lra|]. rewrite <- (sqrt_sqrt a Ha). nra.
+  - intros [Hr Hle]. rewrite <- (sqrt_square r Hr). apply sqrt_le_1_alt. exact Hle.
+Qed.
+Lemma sqrt_geb_sq a r : 0 <= a -> Rleb r (sqrt a) = @sqrt_ge ROps a r.
+Proof.
+  intros Ha. unfold sqrt_ge. rsimp. apply bool_eq_iff. rewrite orb_true_iff, !Rleb_true. split.
+  - intros Hs. destruct (Rle_dec r 0) as [Hr|Hr]; [left; exact Hr|right]. rewrite <- (sqrt_sqrt a Ha). nra.
+  - intros [Hr|Hle]; [pose proof (sqrt_pos a); lra|].
+    destruct (Rle_dec r 0) as [Hr|Hr]; [pose proof (sqrt_pos a); lra|].
+    rewrite <- (sqrt_square r) by lra. apply sqrt_le_1_alt. exact Hle.
+Qed.
+(* Prop forms of the squared predicates: they are the documented inequalities on the distance itself *)
+Lemma sqrt_le_iff a r : 0 <= a -> (@sqrt_le ROps a r = true <-> sqrt a <= r).
+Proof. intros Ha. rewrite <- sqrt_leb_sq by assumption. apply Rleb_true. Qed.
+Lemma sqrt_ge_iff a r : 0 <= a -> (@sqrt_ge ROps a r = true <-> r <= sqrt a).
+Proof. intros Ha. rewrite <- sqrt_geb_sq by assumption. apply Rleb_true. Qed.
+
+(* the code's pixel offsets are the specification's (y flipped: it only enters through squares / the rotation) *)
+Lemma code_offsets H W sy sx cy cx (y x : Z) : sy <> 0 -> sx <> 0 ->
+  let cs := @mask_2d_centres_from ROps (H, W) (sy, sx) (cy, cx) in
+  let d := @offset ROps (H, W) (sy, sx) (cy, cx) (y, x) in
+  (IZR y - fst cs) * sy = - fst d /\ (IZR x - snd cs) * sx = snd d.
+Proof.
+  intros Hy Hx. unfold mask_2d_centres_from, offset, centre_spec, cy_spec, cx_spec. rsimp. split; field; assumption.
+Qed.
+
+Lemma if_negb (b : bool) : (if b then false else true) = negb b.
+Proof. destruct b; reflexivity. Qed.
+Lemma code_dist2 (d : R * R) : snd d * snd d + - fst d * - fst d = @dist2 ROps d.
+Proof. unfold dist2. rsimp. ring. Qed.
+
+Ltac mask_pointwise y x :=
+  unfold mask_of, zrange, seqZ; cbn [fst snd]; apply map_ext; intros y; apply map_ext; intros x.
+
+Lemma circular_is_spec H W sy sx r cy cx : sy <> 0 -> sx <> 0 ->
+  @mask_2d_circular_from ROps (H, W) (sy, sx) r (cy, cx) = mask_of (H, W) (@circ_inside ROps (H, W) (sy, sx) r (cy, cx)).
+Proof.
+  intros Hy Hx. unfold mask_2d_circular_from. cbv zeta. mask_pointwise y x.
+  destruct (code_offsets H W sy sx cy cx y x Hy Hx) as [Ey Ex]. cbv zeta in Ey, Ex.
+  unfold circ_inside. rops. rewrite Ey, Ex. set (d := @offset ROps (H, W) (sy, sx) (cy, cx) (y, x)).
+  rewrite sqrt_leb_sq by nra. rewrite code_dist2. apply if_negb.
+Qed.
+Lemma annular_is_spec H W sy sx ri ro cy cx : sy <> 0 -> sx <> 0 ->
+  @mask_2d_circular_annular_from ROps (H, W) (sy, sx) ri ro (cy, cx) =
+  mask_of (H, W) (@ann_inside ROps (H, W) (sy, sx) ri ro (cy, cx)).
+Proof.
+  intros Hy Hx. unfold mask_2d_circular_annular_from. cbv zeta. mask_pointwise y x.
+  destruct (code_offsets H W sy sx cy cx y x Hy Hx) as [Ey Ex]. cbv zeta in Ey, Ex.
+  unfold ann_inside. cbv zeta. rops. rewrite Ey, Ex. set (d := @offset ROps (H, W) (sy, sx) (cy, cx) (y, x)).
+  rewrite sqrt_leb_sq, sqrt_geb_sq by nra. rewrite code_dist2, if_negb. f_equal. apply andb_comm.
+Qed.
+Lemma anti_annular_is_spec H W sy sx ri ro ro2 cy cx : sy <> 0 -> sx <> 0 ->
+  @mask_2d_circular_anti_annular_from ROps (H, W) (sy, sx) ri ro ro2 (cy, cx) =
+  mask_of (H, W) (@anti_inside ROps (H, W) (sy, sx) ri ro ro2 (cy, cx)).
+Proof.
+  intros Hy Hx. unfold mask_2d_circular_anti_annular_from. cbv zeta. mask_pointwise y x.
+  destruct (code_offsets H W sy sx cy cx y x Hy Hx) as [Ey Ex]. cbv zeta in Ey, Ex.
+  unfold anti_inside. cbv zeta. rops. rewrite Ey, Ex. set (d := @offset ROps (H, W) (sy, sx) (cy, cx) (y, x)).
+  rewrite !sqrt_leb_sq, sqrt_geb_sq by nra. rewrite code_dist2, if_negb. f_equal. f_equal. apply andb_comm.
+Qed.
+
+(* hand model of the elliptical constructors = specification (the rotation in true (y up) coordinates) *)
+Lemma ell_radius_is_spec dy dx c s q : q <> 0 ->
+  let a := @ell2 ROps (dy, dx) (c, s) q in
+  0 <= a /\ @elliptical_radius_from_cs ROps (- dy) dx (c, s) q = sqrt a.
+Proof.
+  intros Hq a. unfold a, ell2, elliptical_radius_from_cs. rsimp. split.
+  - assert (A : forall u v : R, 0 <= u * u + v * v) by (intros; nra). apply A.
+  - f_equal. field. assumption.
+Qed.
+Lemma elliptical_is_spec H W sy sx R q c s cy cx : sy <> 0 -> sx <> 0 -> q <> 0 ->
+  @mask_2d_elliptical_from_cs ROps (H, W) (sy, sx) R q (c, s) (cy, cx) =
+  mask_of (H, W) (@ell_inside ROps (H, W) (sy, sx) R q (c, s) (cy, cx)).
+Proof.
+  intros Hy Hx Hq. unfold mask_2d_elliptical_from_cs. cbv zeta. mask_pointwise y x.
+  destruct (code_offsets H W sy sx cy cx y x Hy Hx) as [Ey Ex]. cbv zeta in Ey, Ex.
+  unfold ell_inside. rops. rewrite Ey, Ex. set (d := @offset ROps (H, W) (sy, sx) (cy, cx) (y, x)).
+  destruct (ell_radius_is_spec (fst d) (snd d) c s q Hq) as [Ha Er]. cbv zeta in Ha, Er. rops.
+  rewrite Er, sqrt_leb_sq by exact Ha. rewrite <- surjective_pairing. apply if_negb.
+Qed.
+Lemma elliptical_annular_is_spec H W sy sx Ri qi ci si Ro qo co so cy cx : sy <> 0 -> sx <> 0 -> qi <> 0 -> qo <> 0 ->
+  @mask_2d_elliptical_annular_from_cs ROps (H, W) (sy, sx) Ri qi (ci, si) Ro qo (co, so) (cy, cx) =
+  mask_of (H, W) (@ellann_inside ROps (H, W) (sy, sx) Ri qi (ci, si) Ro qo (co, so) (cy, cx)).
+Proof.
+  intros Hy Hx Hqi Hqo. unfold mask_2d_elliptical_annular_from_cs. cbv zeta. mask_pointwise y x.
+  destruct (code_offsets H W sy sx cy cx y x Hy Hx) as [Ey Ex]. cbv zeta in Ey, Ex.
+  unfold ellann_inside. cbv zeta. rops. rewrite Ey, Ex. set (d := @offset ROps (H, W) (sy, sx) (cy, cx) (y, x)).
+  destruct (ell_radius_is_spec (fst d) (snd d) ci si qi Hqi) as [Hai Eri]. cbv zeta in Hai, Eri.
+  destruct (ell_radius_is_spec (fst d) (snd d) co so qo Hqo) as [Hao Ero]. cbv zeta in Hao, Ero. rops.
+  rewrite Eri, Ero, sqrt_leb_sq, sqrt_geb_sq by assumption. rewrite <- surjective_pairing. apply if_negb.
+Qed.
+
+(* ------------------------------------------------------------------ composed statements used by Props/C02.v *)
+(* point c lies in the half-open square of pixel p (the top edge and the left edge belong to the pixel) *)
+Definition in_pixel (sh : Z * Z) (s o : R * R) (p : Z * Z) (c : R * R) : Prop :=
+  @cy_spec ROps (fst sh) (fst s) (fst o) (IZR (fst p)) - fst s / 2 < fst c <= @cy_spec ROps (fst sh) (fst s) (fst o) (IZR (fst p)) + fst s / 2 /\
+  @cx_spec ROps (snd sh) (snd s) (snd o) (IZR (snd p)) - snd s / 2 <= snd c < @cx_spec ROps (snd sh) (snd s) (snd o) (IZR (snd p)) + snd s / 2.
+Definition in_array (sh : Z * Z) (p : Z * Z) : Prop := (0 <= fst p < fst sh)%Z /\ (0 <= snd p < snd sh)%Z.
+
+Lemma index_of_interior_point H W sy sx oy ox c p : 0 < sy -> 0 < sx -> in_array (H, W) p -> in_pixel (H, W) (sy, sx) (oy, ox) p c ->
+  @pixel_coordinates_2d_from ROps c (H, W) (sy, sx) (oy, ox) = p /\
+  @grid_pixel_centres_2d_slim_from ROps [c] (H, W) (sy, sx) (oy, ox) = [(IZR (fst p), IZR (snd p))] /\
+  @grid_pixel_indexes_2d_slim_from ROps [c] (H, W) (sy, sx) (oy, ox) = [IZR (fst p * W + snd p)].
+Proof.
+  intros Hsy Hsx [[Hi _] [Hj _]] [Hy Hx]. destruct c as [y x], p as [i j]. cbn [fst snd] in *.
+  assert (E : @pixel_coordinates_2d_from ROps (y, x) (H, W) (sy, sx) (oy, ox) = (i, j)) by (apply pix2_inside; assumption).
+  split; [exact E|]. rewrite centres_are_pix2, indexes_are_pix2 by lra. cbn [map]. cbv zeta. rops. rewrite E. cbn [fst snd]. split; reflexivity.
+Qed.
+Lemma index_of_interior_points H W sy sx oy ox g ps : 0 < sy -> 0 < sx ->
+  Forall2 (fun c p => in_array (H, W) p /\ in_pixel (H, W) (sy, sx) (oy, ox) p c) g ps ->
+  @grid_pixel_centres_2d_slim_from ROps g (H, W) (sy, sx) (oy, ox) = map (fun p => (IZR (fst p), IZR (snd p))) ps /\
+  @grid_pixel_indexes_2d_slim_from ROps g (H, W) (sy, sx) (oy, ox) = map (fun p => IZR (fst p * W + snd p)) ps.
+Proof.
+  intros Hsy Hsx HF. rewrite centres_rowwise, indexes_rowwise.
+  induction HF as [|c p g ps [Ha Hp] HF [IH1 IH2]]; [split; reflexivity|].
+  destruct (index_of_interior_point H W sy sx oy ox c p Hsy Hsx Ha Hp) as [_ [E1 E2]].
+  cbn [flat_map map]. rops. rewrite E1, E2, IH1, IH2. split; reflexivity.
+Qed.
+
+Lemma seqZ_nonneg n j : In j (seqZ n) -> (0 <= j < n)%Z.
+Proof. unfold seqZ. rewrite in_map_iff. intros [k [E Hk]]. apply in_seq in Hk. lia. Qed.
+Lemma unmasked_in_array m p : In p (unmasked m) -> in_array (rows m, cols m) p.
+Proof.
+  unfold unmasked, coords. rewrite filter_In, in_flat_map. intros [[i [Hi Hp]] _].
+  rewrite in_map_iff in Hp. destruct Hp as [j [E Hj]]. subst p. apply seqZ_nonneg in Hi, Hj. split; assumption.
+Qed.
+(* the pixel-centre grid of a mask converts back to the (row, column) of each unmasked pixel and to its flat index *)
+Lemma grid_of_mask_indexes_to_itself m sy sx oy ox : 0 < sy -> 0 < sx ->
+  let g := @grid_2d_slim_via_mask_from ROps m (sy, sx) (oy, ox) in
+  @grid_pixel_centres_2d_slim_from ROps g (rows m, cols m) (sy, sx) (oy, ox) = map (fun p => (IZR (fst p), IZR (snd p))) (unmasked m) /\
+  @grid_pixel_indexes_2d_slim_from ROps g (rows m, cols m) (sy, sx) (oy, ox) = map (fun p => IZR (fst p * cols m + snd p)) (unmasked m).
+Proof.
+  intros Hsy Hsx g. unfold g. rewrite grid_mask_centres by lra. apply index_of_interior_points; try assumption.
+  pose proof (unmasked_in_array m) as HA. induction (unmasked m) as [|p l IH]; [constructor|].
+  constructor.
+  - split; [apply HA; left; reflexivity|]. unfold in_pixel, centre_spec. cbn [fst snd]. rops. split; lra.
+  - apply IH. intros q Hq. apply HA. right. exact Hq.
+Qed.
+
+(* element form of the mask theorems *)
+Lemma mask_of_get sh inside i j : (0 <= i < fst sh)%Z -> (0 <= j < snd sh)%Z ->
+  getm (mask_of sh inside) (i, j) = negb (inside (i, j)).
+Proof.
+  intros Hi Hj. unfold getm, mask_of, seqZ. cbn [fst snd].
+  assert (N : forall n k, (0 <= k < n)%Z -> nth (Z.to_nat k) (seq 0 (Z.to_nat n)) 0%nat = Z.to_nat k).
+  { intros n k Hk. rewrite seq_nth by lia. reflexivity. }
+  rewrite nth_indep with (d' := map (fun j0 => negb (inside (Z.of_nat 0, j0))) (map Z.of_nat (seq 0 (Z.to_nat (snd sh)))))
+    by (rewrite !map_length, seq_length; lia).
+  rewrite (map_nth (fun i0 => map (fun j0 => negb (inside (i0, j0))) (map Z.of_nat (seq 0 (Z.to_nat (snd sh)))))
+                   (map Z.of_nat (seq 0 (Z.to_nat (fst sh)))) (Z.of_nat 0) (Z.to_nat i)).
+  rewrite (map_nth Z.of_nat), N by assumption. rewrite Z2Nat.id by lia.
+  rewrite nth_indep with (d' := negb (inside (i, Z.of_nat 0))) by (rewrite !map_length, seq_length; lia).
+  rewrite (map_nth (fun j0 => negb (inside (i, j0)))), (map_nth Z.of_nat), N by assumption. rewrite Z2Nat.id by lia. reflexivity.
+Qed.
+(* circular: unmasked iff the distance of the pixel centre (relative to the mask origin) from the requested centre is <= r *)
+Lemma circular_element H W sy sx r cy cx i j : sy <> 0 -> sx <> 0 -> (0 <= i < H)%Z -> (0 <= j < W)%Z ->
+  getm (@mask_2d_circular_from ROps (H, W) (sy, sx) r (cy, cx)) (i, j) = false <->
+  sqrt (@dist2 ROps (@offset ROps (H, W) (sy, sx) (cy, cx) (i, j))) <= r.
+Proof.
+  intros Hy Hx Hi Hj. rewrite circular_is_spec, mask_of_get by assumption. rewrite negb_false_iff. unfold circ_inside.
+  apply sqrt_le_iff. unfold dist2. rsimp. nra.
 Qed.
